@@ -117,6 +117,7 @@ def run_case(case):
     a = core.build(spec, attrs=ATTRS)
     snap = core.snapshot(a)
     src = core.model_of_spec(spec)
+    src_vals = core.spec_values(spec)
     sub = []
     cl = set(["ndim:%d" % nd] + (["square"] if case["square"] and len(labels[0]) > 1 else []))
     only = case.get("only")
@@ -279,6 +280,29 @@ def run_case(case):
                 f = {"mean": lambda v: sum(v) / float(len(v)), "sum": sum, "max": max}[red]
                 if nd > 2:
                     core.expect_array(x, rest, [labels[dims.index(d)] for d in rest], lambda c: f(fib[tuple(core.canon_label(c[d]) for d in rest)]), what, tol=True, sig=sig)
+            # order-sensitive along-axis functions over a tuple of dimensions: the group is formed in the listed order
+            for fn in ("cumsum", "argmax", "argmin"):
+                what = "%s(axis=%s) vs flatten(%s, insert=0).%s(axis=0) dims=%s" % (fn, pair, pair, fn, dims)
+                sig = {"op": "tuple-" + fn}
+                x = lib(lambda: getattr(a, fn)(axis=tuple(pair)), what=what, sig=sig)
+                y = lib(lambda: getattr(a.flatten(tuple(pair), insert=0), fn)(axis=0), what=what, sig=sig)
+                if hasattr(x, "dims") or hasattr(y, "dims"):
+                    check(hasattr(x, "dims") and hasattr(y, "dims") and tuple(x.dims) == tuple(y.dims), "tuple-axis-dims", {"what": what, "got": list(getattr(x, "dims", [])), "expected": list(getattr(y, "dims", []))}, sig)
+                    if fn == "cumsum":
+                        check(x.dims[0] == ",".join(pair), "tuple-axis-group-name", {"what": what, "got": list(x.dims), "expected_first": ",".join(pair)}, sig)
+                    for i in range(len(x.dims)):
+                        check([core.canon_label(v) for v in x.axes[i].values.tolist()] == [core.canon_label(v) for v in y.axes[i].values.tolist()], "tuple-axis-labels", {"what": what, "dim": x.dims[i], "got": core.jsonable(x.axes[i].values), "expected": core.jsonable(y.axes[i].values)}, sig)
+                    gx, gy = np.asarray(x.values, dtype=object).ravel().tolist(), np.asarray(y.values, dtype=object).ravel().tolist()
+                    check(len(gx) == len(gy) and all(core.canon_label(p_) == core.canon_label(q_) or core.same_scalar(p_, q_, tol=True) for p_, q_ in zip(gx, gy)), "tuple-axis-values", {"what": what, "got": core.jsonable(gx), "expected": core.jsonable(gy)}, sig)
+                else:
+                    check(core.canon_label(x) == core.canon_label(y), "tuple-axis-values", {"what": what, "got": core.jsonable(x), "expected": core.jsonable(y)}, sig)
+                kinds_ = {core.label_kind(l) for l in labels}
+                if fn != "cumsum" and nd == 2 and (kinds_ <= {"i", "f"} or kinds_ == {"s"}) and not np.isnan(np.asarray(src_vals, dtype=float)).any():
+                    # arg-extremum over all dims as a tuple: a tuple of labels in the listed order that addresses the extremum
+                    lab = x.values.item() if hasattr(x, "values") else x
+                    c = dict(zip(pair, lab))
+                    ext = (max if fn == "argmax" else min)(src.cells.values())
+                    check(src.cells[tuple(core.canon_label(c[d]) for d in dims)] == ext, "tuple-arg-not-at-extremum", {"what": what, "got": core.jsonable(lab)}, sig)
             cl.add("tuple-reduction")
             sub.append((core.digest([spec, "tuple", pair]), True))
     guard("tuple", t_tuple)
